@@ -198,7 +198,7 @@ Proof.
     replace (zlen pre + base + st) with (zlen pre + (base + st)) by lia.
     destruct (Hrd s (base + st) lctx Hst) as [S1 S2]. rewrite S1.
     destruct (rd s (base + st) lctx) as [[x p1]|] eqn:E; cbn [shift bind fst snd]; [|split; [reflexivity|discriminate]].
-    specialize (S2 _ _ eq_refl). rewrite (Z.add_comm p1). now apply IH.
+    specialize (S2 _ _ eq_refl). replace (Z.max (zlen pre + last) (p1 + zlen pre)) with (zlen pre + Z.max last p1) by lia. apply IH; lia.
 Qed.
 
 Lemma prim_size_z_nonneg p sz : prim_size_z p = Some sz -> 0 <= sz.
